@@ -1174,21 +1174,20 @@ class ByParty:
                     subset_conv.convert(cvotes, [party]).values()
                 ) for constituency, cvotes in votes.items()
             }
+            kwargs = {}
             if accepts_prev_gains(allocator):
-                party_prev_gains = {
+                kwargs['prev_gains'] = {
                     constituency: cg[party]
                     for constituency, cg in prev_gains.items() if party in cg
                 }
-                party_max_seats = {
+            if accepts_max_seats(allocator):
+                kwargs['max_seats'] = {
                     constituency: cm[party]
                     for constituency, cm in max_seats.items() if party in cm
                 }
-                allocated = allocator.evaluate(
-                    party_votes, n_party_seats,
-                    prev_gains=party_prev_gains, max_seats=party_max_seats
-                )
-            else:
-                allocated = allocator.evaluate(party_votes, n_party_seats)
+            allocated = allocator.evaluate(
+                party_votes, n_party_seats, **kwargs
+            )
             for constituency, cseats in allocated.items():
                 results[constituency][party] = cseats
         for constituency in votes.keys():
